@@ -462,6 +462,16 @@ func C03(tier string) int {
 	// extended child store (the parent's constraints then run through chained indexing contexts)
 	kc := newKitchen("unique+set index of a parent store used through child stores", kFeat{})
 	runE1(rep, kc, explore.Config{Programs: explore.SingleOps(len(kc.Ops()))})
+	// unique and set indexes owned by the child stores themselves, with the extended child (which claims every
+	// parent entity as its own) registered before and after the plain child
+	for _, extFirst := range []bool{true, false} {
+		kci := newKitchen(fmt.Sprintf("unique+set indexes owned by child stores, extended registered first=%v", extFirst), kFeat{childIdx: true, extFirst: extFirst})
+		cfg := explore.Config{Programs: explore.SingleOps(len(kci.Ops()))}
+		if tier == "quick" {
+			cfg.MaxDepth = 4
+		}
+		runE1(rep, kci, cfg)
+	}
 	// three entities alive at once (three holders of one set value, an entry in the middle of an index
 	// bucket): a restricted view of the 3-id alphabet - every id keeps its own name, alias stays null -
 	// explored to closure with one and two operations per transaction
